@@ -67,7 +67,15 @@ func (pt *ParsedTable) ToMarkdown() string {
 		sb.WriteString("|")
 		colIdx := 0
 		for _, cell := range row.Cells {
+			span := cell.ColSpan
+			if span < 1 {
+				span = 1
+			}
 			if cell.IsCovered {
+				// Covered by a merge from above: the cell still occupies its
+				// grid columns, so keep them (empty) to stay aligned.
+				sb.WriteString(strings.Repeat(" |", span))
+				colIdx += span
 				continue
 			}
 			// Replace newlines and pipes within cells
@@ -77,11 +85,9 @@ func (pt *ParsedTable) ToMarkdown() string {
 			sb.WriteString(" ")
 			sb.WriteString(text)
 			sb.WriteString(" |")
-
-			span := cell.ColSpan
-			if span < 1 {
-				span = 1
-			}
+			// Markdown has no column spans: a cell spanning several grid
+			// columns is followed by empty cells for the columns it covers.
+			sb.WriteString(strings.Repeat(" |", span-1))
 			colIdx += span
 		}
 		// Pad remaining columns if needed
